@@ -42,7 +42,7 @@ CHECKS = {
    text="Mechanisms behind 'accepted => serialisable': no compile/load/check error of a schema object is dropped on the build path (two sites are a recorded finding, F15), lazily computed content keeps its failure, ToJson/ToJsonIndent encode the same value, hand-written emitters write only encoder output, pseudo schemas exist only for any/empty, regex bodies are checked when built, path-variable properties bring all their types, pool-backed bytes are copied. The JDoc shape of every schema node is produced by the dependency and is not claimed.",
    design="DESIGN.md §5 C04",
    note=TB + "F15 is listed in known_findings.json (repair attempted, breaks pinned snapshots).",
-   technique="error-discipline lint over the reachable call graph; structural rules on emitters and constructors; emitted key table compared with a frozen reference; required arrays initialised on every path to the encoder; coupling of serialise format and notation at call sites; dead and shadowing error stores on SSA; reads of once-initialised fields behind the Once (dominance); marshal purity; regex example probe; error-returning dependency calls under the serialisers against those under the build; typed nil returned as error"),
+   technique="error-discipline lint over the reachable call graph; structural rules on emitters and constructors; emitted key table compared with a frozen reference; required arrays initialised on every path to the encoder; coupling of serialise format and notation at call sites; dead and shadowing error stores on SSA; reads of once-initialised fields behind the Once (dominance); marshal purity; regex example probe; error-returning dependency calls under the serialisers against those under the build; typed nil returned as error; a dependency function classified stateful is covered by no build-time call or probe, and its call in package catalog stands behind a deferred recover"),
  "C16": dict(
    engine="rules/effects.go (E5 write effects over SSA) + rules/c16.go",
    category="other",
@@ -126,7 +126,7 @@ CHECKS = {
    text="The context table in the source equals the frozen JSight 0.3 reference pair by pair, and the resolution algorithm has the required control structure (single context cursor, attach only under the allowed lookup, walk-up only from implicit contexts, explicit contexts reject, ')' closes the innermost explicit context, a directive is placed exactly once - as a child or in the root list - on every successful path, the pending directive is finalised before ')' and before the end-of-file test). The verdict for each concrete directive sequence (table x algorithm product) is not enumerated.",
    design="DESIGN.md §5 C11",
    note=TB + "tools/reference/context_table.json is the oracle for the table; it was derived from the pinned tree and reviewed against the language description.",
-   technique="typed-literal table extraction compared with a reference relation; the accessors folded on all pairs of kinds and compared with the literal (abstract evaluation of SSA); edge facts on the open-context walk; dominance rules on processContext; path/term invariants of processContext and closeLastExplicitContext from abstract evaluation of SSA (internal/ssaeval); '(' transparency by bounded bisimulation; abstract run of the '(' handler per directive kind; reachability from the lexeme dispatch to the placement function; who-writes rule for the explicit-context flag; a comment sign where '(' is accepted starts a comment; no pop of an empty step stack; the URL-child protocol classes passed over for neutral kinds (abstract run per kind); coordinate-equality predicates; post-scan constructor discipline"),
+   technique="typed-literal table extraction compared with a reference relation; the accessors folded on all pairs of kinds and compared with the literal (abstract evaluation of SSA); edge facts on the open-context walk; dominance rules on processContext; path/term invariants of processContext and closeLastExplicitContext from abstract evaluation of SSA (internal/ssaeval); '(' transparency by bounded bisimulation; abstract run of the '(' handler per directive kind; reachability from the lexeme dispatch to the placement function; who-writes rule for the explicit-context flag; a comment sign where '(' is accepted starts a comment; no pop of an empty step stack; the URL-child protocol classes passed over for neutral kinds (abstract run per kind); coordinate-equality predicates; post-scan constructor discipline; every report of ContextOpen in the step functions stands under conditions on the byte only (no enclosing condition mentions the scanner)"),
  "C14": dict(
    engine="rules/c14.go + rules/strpred.go (predicate automaton)",
    category="other",
